@@ -738,7 +738,11 @@ class ASTCodeGenerator(object):
 
     # Constant(object value)
     def visit_Constant(self, node):
-        self._write(repr(node.value))
+        if node.value is Ellipsis:
+            # repr(Ellipsis) is the (rebindable) name 'Ellipsis'
+            self._write('...')
+        else:
+            self._write(repr(node.value))
 
     if not IS_PYTHON2:
         # Bytes(bytes s)
